@@ -1770,7 +1770,7 @@ func c16R4(e *c16Env) {
 func c16R5(e *c16Env) {
 	const R = "C16.R5.once-protocol"
 	c := e.c
-	c.Expect(R, 6)
+	c.Expect(R, 7)
 	const tOnce = "~/internal/syncutil.Once"
 	F := c.P.Fn("internal/syncutil", "Once.Do")
 	if F == nil || len(F.Params) != 3 {
@@ -1918,8 +1918,33 @@ func c16R5(e *c16Env) {
 	}
 	var canc []Edge
 	errAl := vw.Aliases(ferr)
+	perSentinel := map[string][]Edge{}
 	for _, g := range vw.Funcs() {
-		canc = append(canc, toleratedEdges(g, errAl, []string{"context.Canceled", "context.DeadlineExceeded"})...)
+		for _, sn := range []string{"context.Canceled", "context.DeadlineExceeded"} {
+			perSentinel[sn] = append(perSentinel[sn], toleratedEdges(g, errAl, []string{sn})...)
+		}
+	}
+	// an equivalent test: the call's own context has ended (ctx.Err() != nil after f returned)
+	var ctxEnded []Edge
+	for _, ec := range vw.CallsTo("(context.Context).Err") {
+		if ec.Value() == nil || !vw.Reachable(fci, ec.(ssa.Instruction)) {
+			continue
+		}
+		_, nn := vw.NilTests(vw.StrictAliases(ec.Value()))
+		ctxEnded = append(ctxEnded, nn...)
+	}
+	missing := ""
+	for _, sn := range []string{"context.Canceled", "context.DeadlineExceeded"} {
+		if len(perSentinel[sn]) == 0 && len(ctxEnded) == 0 {
+			missing += " " + sn
+		}
+		canc = append(canc, perSentinel[sn]...)
+	}
+	canc = append(canc, ctxEnded...)
+	if missing != "" {
+		c.Violation(R, fn+"|cancellation-covers-both-sentinels", fc.Pos(), "Once.Do does not treat f's error"+missing+" as an aborted call: a fetch that died on the fetching request's own cancellation/deadline is memoised, and a waiter with valid credentials and a live context is served that error instead of a token")
+	} else {
+		c.OK(R, fn+"|cancellation-covers-both-sentinels", fc.Pos(), "both context.Canceled and context.DeadlineExceeded (or the call's ctx.Err()) are recognised as an aborted call")
 	}
 	var backs []ssa.Instruction
 	for _, s := range vw.Sends() {
